@@ -390,7 +390,9 @@ func runTraversalCase(c *tvCase, dir string, rep *Report) []tvViol {
 				// ... and the blocks the traversal visits do not depend on how the writer gets hold of them: where the
 				// engine's load sequence is the specification's (checked above on the recording link system), the archive
 				// holds its first occurrences
-				if !c.Err && len(dags) == 1 && fmt.Sprint(names) != fmt.Sprint(firstOcc(c.Loads)) {
+				// (several dags: the specification's loads are those of the dags one after the other, each walked in
+				// full whatever an earlier dag has already put into the archive)
+				if !c.Err && fmt.Sprint(names) != fmt.Sprint(firstOcc(c.Loads)) {
 					add("root.SelectiveCar.Write/blocks-vs-traversal", fmt.Sprintf("archive holds %v, the traversal visits %v", names, firstOcc(c.Loads)))
 				}
 				for i := range names {
